@@ -1,6 +1,9 @@
 package main
 
 import (
+	"encoding/base32"
+	"encoding/base64"
+	"encoding/hex"
 	"fmt"
 	"math"
 	"math/rand/v2"
@@ -446,9 +449,52 @@ func genJSONFor(r *rand.Rand, t *tdesc, sb *strings.Builder, depth int) {
 	case "string":
 		genStringLit(r, &genCfg{escapes: true}, genRunes(r, &genCfg{maxStr: 6, unicode: true}), sb)
 	case "bytes":
-		sb.WriteString([]string{`""`, `"aGk="`, `"AAEC"`}[r.IntN(3)])
+		// binary data in one of the encodings a `format` option can name (mostly Base 64, the
+		// default), now and then damaged: excess or missing padding, a line break, the other case
+		b := make([]byte, r.IntN(7))
+		for i := range b {
+			b[i] = byte(r.IntN(256))
+		}
+		var enc string
+		switch k := r.IntN(12); {
+		case k < 6:
+			enc = base64.StdEncoding.EncodeToString(b)
+		case k == 6:
+			enc = base64.URLEncoding.EncodeToString(b)
+		case k == 7:
+			enc = base32.StdEncoding.EncodeToString(b)
+		case k == 8:
+			enc = base32.HexEncoding.EncodeToString(b)
+		case k == 9:
+			enc = hex.EncodeToString(b)
+		case k == 10:
+			enc = strings.ToUpper(hex.EncodeToString(b))
+		default:
+			sb.WriteByte('[')
+			for i, x := range b {
+				if i > 0 {
+					sb.WriteByte(',')
+				}
+				sb.WriteString(strconv.Itoa(int(x) + 250*r.IntN(2)*r.IntN(2)*r.IntN(2)))
+			}
+			sb.WriteByte(']')
+			return
+		}
+		switch r.IntN(14) {
+		case 0:
+			enc += "="
+		case 1:
+			enc = strings.TrimSuffix(enc, "=")
+		case 2:
+			enc += `\n`
+		case 3:
+			enc = strings.ToLower(enc)
+		case 4:
+			enc += enc
+		}
+		sb.WriteString(`"` + enc + `"`)
 	case "float32", "float64":
-		sb.WriteString([]string{"0", "1.5", "-2.25e2", "1e-3", "123456"}[r.IntN(5)])
+		sb.WriteString([]string{"0", "1.5", "-2.25e2", "1e-3", "123456", "0", "1.5", "-2.25e2", "1e-3", "123456", `"NaN"`, `"-Infinity"`, `"Infinity"`, `"1.5"`}[r.IntN(14)])
 	case "time":
 		sb.WriteString([]string{`"2000-01-01T00:00:00Z"`, `"1999-12-31T23:59:59.5+01:00"`}[r.IntN(2)])
 	case "duration":
